@@ -1,18 +1,13 @@
 SPECIFICATION Spec
 CONSTANTS
   Peers <- P2
-  GarbagePeers <- None
   X <- X2
   Cls <- Cls2
   Req = "r"
-  Named <- T2
-  T <- T2
+  Named <- T3
   BadCopy <- None
-  Holds <- HoldsAll
-  Mute <- None
   MaxH = 2
-  MaxSend = 3
-  MaxPush = 2
+  Universes <- U4
   BugDeliverTwice = FALSE
   BugRelaySenderOnly = FALSE
   BugTruncate = FALSE
@@ -20,5 +15,4 @@ CONSTANTS
   BugStartBeforeSync = FALSE
   SplitLookup = TRUE
 INVARIANTS TypeOK Safe AtRest
-CONSTRAINT Constr
 CHECK_DEADLOCK FALSE
